@@ -105,6 +105,9 @@ func segs(v pred.Val) ([]string, bool) {
 		case x.Fn == "strconv.AppendUint" && len(x.Args) == 3 && x.Args[2].String() == "10":
 			a, ok := segs(x.Args[0])
 			return append(a, "<uint "+x.Args[1].String()+">"), ok
+		case x.Fn == "strconv.FormatUint" && len(x.Args) == 2 && x.Args[1].String() == "10":
+			// the string form of the same digits (appended with append(buf, s...))
+			return []string{"<uint " + x.Args[0].String() + ">"}, true
 		case (x.Fn == "slice" || x.Fn == "slice[:0]") && len(x.Args) == 1:
 			// make([]byte, 0, n) lowers to a slice of a fresh local array: an empty base
 			if p, ok := x.Args[0].(pred.Ptr); ok && p.Cell != nil && strings.HasPrefix(p.Cell.Name, "makeslice") {
